@@ -10,6 +10,7 @@ from ..crashloop import explore
 from ..env import FakePool
 from ..runner import run_process
 from . import runs
+from ..swarm import PRECONDS_WITH_FLOW
 from .common import shrink_scenario_candidates
 
 ID = "C17"
@@ -53,7 +54,7 @@ def scenario_of(case):
         from . import c05_blackjax
 
         return c05_blackjax.scenario(case)
-    return runs.draw_any(case["scenario_seed"], case["tier"])
+    return runs.draw_any(case["scenario_seed"], case["tier"], preconds=PRECONDS_WITH_FLOW)
 
 
 def run_case(case, workdir):
